@@ -132,6 +132,18 @@ def step (h : Heap α) : Op α → Heap α × Res α
         | none => Res.none
       (⟨h.allocs, h.live.set k none⟩, r)
 
+/-- `impl PartialEq for NumbatList` (as repaired by numbat 2bb906d): equal lengths and element-wise equal elements —
+whatever the two handles share.  `beq` is the equality of the elements, which need not be reflexive (NaN). -/
+def eqHandles (beq : α → α → Bool) (allocs : List (List α)) (a b : Handle) : Bool :=
+  lenOf allocs a == lenOf allocs b &&
+    ((contents allocs a).zip (contents allocs b)).all (fun p => beq p.1 p.2)
+
+/-- equality of plain sequences under an element equality -/
+def seqEq (beq : α → α → Bool) : List α → List α → Bool
+  | [], [] => true
+  | x :: xs, y :: ys => beq x y && seqEq beq xs ys
+  | _, _ => false
+
 /-- what each slot holds, as plain sequences -/
 def Heap.abs (h : Heap α) : List (Option (List α)) := h.live.map (Option.map (contents h.allocs))
 
